@@ -37,8 +37,9 @@ RULE = ("workloads = fixed boundary corpus (objects crossing the table growth at
         "a case is non-trivial when N > 0 and at least one k ends in a documented failure; distinct = distinct script line among those")
 TRUSTED = ["Coq 8.16.1 kernel (coqc), no axioms (Print Assumptions: closed under the global context)",
            "extraction (ExtrOcamlBasic only) + ocaml/mdrv glue (ocaml/drv_oom.ml)",
-           "harness/drv_oom.c, xalloc.c (compile-time malloc/calloc/realloc/strdup/free renames), gcc -fsanitize=address,undefined",
-           "allocations made by libc on the library's behalf (vasprintf, newlocale/duplocale, snprintf) are not interposed: they cannot be "
+           "harness/drv_oom.c (carries its own copy of json_tokener.c, compiled from the working tree, with duplocale/newlocale/freelocale wrapped), "
+           "xalloc.c (compile-time malloc/calloc/realloc/strdup/free renames), gcc -fsanitize=address,undefined",
+           "allocations made by libc on the library's behalf (vasprintf, snprintf) are not interposed (duplocale/newlocale are wrapped): they cannot be "
            "failed, but they are accounted (sanitizer heap statistics before the run / after the caller released everything)"]
 ASSUMPTIONS = ["a failing allocator returns NULL and leaves existing blocks intact (realloc keeps the old block)",
                "the caller follows the documented ownership rules: a value whose add/insert/set failed is still the caller's and is released by it",
@@ -55,7 +56,8 @@ LEVEL_TEXT = ("Machine-checked, for EVERY input and EVERY allocator behaviour (a
               "either side of the 128-byte stack buffer (contents per C19, the temporary released exactly once on every path); "
               "json_c_set_serialization_double_format over C02's settings model (SerModel.set_format): -1 leaves the configuration, hence every "
               "thread's effective format, and the live blocks exactly as they were; json_object_array_del_idx (asks the allocator for nothing: "
-              "range released once, capacity kept, refusal changes nothing) and json_object_array_shrink (may fail: array unchanged).  Each repaired defect has a negative "
+              "range released once, capacity kept, refusal changes nothing) and json_object_array_shrink (may fail: array unchanged); the tokener's "
+              "temporary numeric locale (duplocale, newlocale as requests: on failure the copy is released; set-up / parse / tear-down releases it once).  Each repaired defect has a negative "
               "control: the original code shape is kept as a second definition with a *_refuted theorem whose witness is evaluated by vm_compute. "
               "PARTIAL: the tokener's other allocation sites (token buffer appends, node constructors, member-name copy inside the state machine), "
               "json_tokener_parse_verbose / json_object_from_fd_ex, deep copy, JSON pointer get/set, JSON patch, json_object_get_string of a "
@@ -66,7 +68,8 @@ LEVEL_NOTE = ("Trusted: Coq kernel; extraction + OCaml glue; harness and allocat
               "json-c is tied to them by differential execution (N and every per-k outcome of the modelled operations) and, for the unmodelled "
               "operations (tokener beyond the attach step, deep copy, pointer, patch), only by the runtime enumeration — sampled workloads, all k.")
 
-KNOWN_CLASSES_ORDER = ["crash", "wrong_result", "ser_holes", "owned_object_changed", "object_add_key_leak", "parse_child_leak", "leak", "malformed"]
+KNOWN_CLASSES_ORDER = ["crash", "wrong_result", "ser_holes", "owned_object_changed", "object_add_key_leak", "parse_child_leak",
+                       "locale_object_leak", "leak", "malformed"]
 
 
 def hx(b):
@@ -293,6 +296,18 @@ def corpus():
     add("parse", [], [tp(0, 0, 32, texts[2], cuts=(30, 90, 95, 100))])
     add("parse", [], [tp(0, 0, 32, texts[0]), "js0,0"])
     add("parse", [], [tp(0, 16, 32, b'["\xc3\xa9",{"k":"\xe2\x82\xac"}] ')])
+    # the calling thread under "C", under the comma-decimal locale set globally, and set for the thread: the
+    # tokener's temporary "C" numeric locale (duplocale, newlocale: requests of the workload like any other) must be
+    # released and the caller's locale restored on every path — also for texts that end in an error, for chunked
+    # input (one set-up per call) and for the wrappers
+    for mode in ("lcC", "lcG", "lcT"):
+        for t in (texts[0], texts[8], texts[12], texts[13], b'1.5 ', b'[1,5] ', b''):
+            add("parse_locale", [mode], [tp(0, 0, 32, t)], ks="*,A")
+        add("parse_locale", [mode], [tp(0, 0, 32, texts[8], cuts=(3, 9, 20))], ks="*,A")
+        add("parse_locale", [mode], [tp(0, 1, 32, texts[0]), "js0,0"])
+        add("parse_locale", [mode], ["tv0,%s" % hx(b'{"a":[1.25,2e3]}')], ks="*,A")
+        add("parse_locale", [mode], ["ff0,32,%s" % hx(b'{"a":[1.25,2e3]}')], ks="*,A")
+        add("parse_locale", [mode, "b0=[d3ff8000000000000,d4004000000000000]"], ["js0,0", "gs0"])
     add("parse", [], ["tv0,%s" % hx(texts[0])])
     add("parse", [], ["tv0,%s" % hx(texts[3])])
     add("parse", [], ["ff0,32,%s" % hx(texts[0])])
@@ -361,6 +376,8 @@ def gen_random(rng, n, doubles=0):
             tree = "[n]"
         if r < 0.22:
             kind, setup, test = "r_parse", [], [tp(0, rng.choice([0, 0, 1, 16]), rng.choice([32, 32, 3]), gen_text(rng))]
+            if rng.random() < 0.4:
+                setup = [rng.choice(["lcG", "lcT", "lcC"])]
             if rng.random() < 0.3:
                 t = gen_text(rng)
                 cuts = sorted(set(rng.randrange(1, len(t)) for _ in range(rng.randint(1, 3)))) if len(t) > 2 else ()
@@ -517,7 +534,7 @@ def gen(rng, tier):
 
 
 # ------------------------------------------------------------------ oracle
-TOK = re.compile(r"^([0-9+^A]+):(N|F|D)(\d*):([uc-])(-?\d+)(?:h(-?\d+))?$")
+TOK = re.compile(r"^([0-9+^A]+):(N|F|D)(\d*):([uc-])(-?\d+)(?:l(-?\d+))?(?:h(-?\d+))?$")
 
 
 def parse_obs(o):
@@ -531,7 +548,8 @@ def parse_obs(o):
             if not tm:
                 return None
             toks.append(dict(k=tm.group(1), cls=tm.group(2), op=int(tm.group(3)) if tm.group(3) else -1, owned=tm.group(4), leak=int(tm.group(5)),
-                             hidden=int(tm.group(6)) if tm.group(6) else 0))
+                             locs=int(tm.group(6)) if tm.group(6) else 0,
+                             hidden=int(tm.group(7)) if tm.group(7) else 0))
     return dict(n=int(m.group(1)), base=m.group(2), toks=toks, dumpalloc=bool(m.group(4)))
 
 
@@ -568,7 +586,9 @@ def findings(line_, impl):
                 put("wrong_result", "a result other than the normal one or a documented failure at " + where)
         if t["owned"] == "c":
             put("owned_object_changed", "an object the caller still owns changed across a failed call at " + where)
-        if t["leak"] != 0:
+        if t["locs"] != 0:
+            put("locale_object_leak", "%d locale object(s) obtained by the call (duplocale / newlocale) not released, " % t["locs"] + where)
+        elif t["leak"] != 0:
             cls = "object_add_key_leak" if opk == "oa" else "parse_child_leak" if opk in ("tp", "tv", "ff") else "leak"
             put(cls, "%d block(s) still live after the caller released everything, " % t["leak"] + where)
         elif t["hidden"] != 0:
@@ -628,7 +648,9 @@ def shrink(ck, line_, cls):
     if ob:
         for t in ob["toks"]:
             one = "oom %s %s %s" % (t["k"], setup, test)
-            if any(f[0] == cls for f in findings(one, "n=%d base=x ks=%s:%s%s:%s%d" % (ob["n"], t["k"], t["cls"], t["op"] if t["op"] >= 0 else "", t["owned"], t["leak"]))):
+            if any(f[0] == cls for f in findings(one, "n=%d base=x ks=%s:%s%s:%s%d%s%s" % (
+                    ob["n"], t["k"], t["cls"], t["op"] if t["op"] >= 0 else "", t["owned"], t["leak"],
+                    "l%d" % t["locs"] if t["locs"] else "", "h%d" % t["hidden"] if t["hidden"] else ""))):
                 cand.append(one)
                 break
     else:
